@@ -52,6 +52,7 @@ var (
 	fResume = flag.String("c06resume", "", "internal: group:seq to resume at")
 	fOne    = flag.String("c06one", "", "internal: run one case of this group")
 	fInput  = flag.String("c06input", "", "internal: hex input for --c06one")
+	fSeq    = flag.Uint64("c06seq", 0, "internal: case number for --c06one")
 	fTmp    = flag.String("c06tmp", "", "internal: scratch directory")
 	fBudget = flag.Duration("c06budget", 0, "internal: worker time budget")
 	fOnly   = flag.String("c06groups", "", "debug: comma separated group name prefixes to run")
@@ -107,6 +108,7 @@ type worker struct {
 
 	distinctAddrs uint64
 	relayResp     []byte
+	rbuf          []byte
 	cpu0          uint64
 	udpSrv        any
 	ssServerUnp   zerocopy.ServerUnpacker
@@ -402,7 +404,7 @@ func oneMain() {
 		if g.setup != nil {
 			g.setup(w)
 		}
-		w.runCase(0, in, false)
+		w.runCase(*fSeq, in, true) // as a seed: every reply code and every packer pairing, a superset of what any case runs
 		w.flushGroup()
 		fmt.Fprintln(w.out, `{"t":"end"}`)
 		w.out.Flush()
@@ -481,6 +483,7 @@ func runShard(groups []*group, tier string, shard, nshards int, tmp string, budg
 			args = append(args, "--c06groups", *fOnly)
 		}
 		cmd := exec.Command(os.Args[0], args...)
+		cmd.SysProcAttr = &syscall.SysProcAttr{Pdeathsig: syscall.SIGKILL} // no orphans if the parent is killed
 		errTail := &tailBuf{}
 		cmd.Stderr = errTail
 		stdout, err := cmd.StdoutPipe()
@@ -588,6 +591,32 @@ func tailStr(s string, n int) string {
 	return s
 }
 
+// runOne executes one case in a fresh child process and returns the signatures it shows.
+func runOne(tier, group, input string, seq uint64, tmp string) (sigs map[string]string, harnessErr string) {
+	cmd := exec.Command(os.Args[0], "--tier", tier, "--c06one", group, "--c06input", input, "--c06seq", strconv.FormatUint(seq, 10), "--c06tmp", tmp)
+	errTail := &tailBuf{}
+	cmd.Stderr = errTail
+	out, werr := cmd.Output()
+	sigs = map[string]string{}
+	for _, line := range bytes.Split(out, []byte("\n")) {
+		var v struct {
+			T string `json:"t"`
+			violRec
+		}
+		if json.Unmarshal(line, &v) == nil && v.T == "v" {
+			sigs[v.Sig] = v.What
+		}
+	}
+	if werr != nil {
+		if strings.Contains(errTail.String(), "HARNESS-ERROR") {
+			return sigs, errTail.String()
+		}
+		sig, what := classifyCrash(errTail.String())
+		sigs[sig] = "the process died: " + what
+	}
+	return sigs, ""
+}
+
 func replayMain(c *harness.Check, tmp string) {
 	r, err := harness.ReplayFile(c.Replay)
 	if err != nil {
@@ -595,29 +624,20 @@ func replayMain(c *harness.Check, tmp string) {
 	}
 	group, _ := r["group"].(string)
 	input, _ := r["input"].(string)
-	cmd := exec.Command(os.Args[0], "--tier", c.Tier, "--c06one", group, "--c06input", input, "--c06tmp", tmp)
-	errTail := &tailBuf{}
-	cmd.Stderr = errTail
-	out, werr := cmd.Output()
 	fmt.Printf("replay entry=%s input=%s\n", group, input)
-	failed := false
-	for _, line := range bytes.Split(out, []byte("\n")) {
-		var v struct {
-			T string `json:"t"`
-			violRec
-		}
-		if json.Unmarshal(line, &v) == nil && v.T == "v" {
-			failed = true
-			fmt.Printf("VIOLATION property=C06 replay=%s\n  signature: %s\n  %s\n", c.Replay, v.Sig, v.What)
-		}
+	seqf, _ := r["seq"].(float64)
+	sigs, herr := runOne(c.Tier, group, input, uint64(seqf), tmp)
+	if herr != "" {
+		fatalf("replay child: %s", herr)
 	}
-	if werr != nil {
-		if strings.Contains(errTail.String(), "HARNESS-ERROR") {
-			fatalf("replay child: %s", errTail.String())
-		}
-		sig, what := classifyCrash(errTail.String())
-		failed = true
-		fmt.Printf("VIOLATION property=C06 replay=%s\n  signature: %s\n  the process died: %s\n", c.Replay, sig, what)
+	failed := len(sigs) > 0
+	var keys []string
+	for k := range sigs {
+		keys = append(keys, k)
+	}
+	sort.Strings(keys)
+	for _, k := range keys {
+		fmt.Printf("VIOLATION property=C06 replay=%s\n  signature: %s\n  %s\n", c.Replay, k, sigs[k])
 	}
 	os.RemoveAll(tmp)
 	if failed {
@@ -668,6 +688,7 @@ func main() {
 		wg.Add(1)
 		go func(i int) {
 			defer wg.Done()
+			runtime.LockOSThread() // Pdeathsig is tied to the forking thread
 			results[i] = runShard(groups, c.Tier, i, n, tmp, budget)
 		}(i)
 	}
@@ -720,7 +741,22 @@ func main() {
 		}
 		return viols[i].Sig < viols[j].Sig
 	})
+	confirmed := map[string]bool{}
 	for _, v := range viols {
+		if confirmed[v.Sig] {
+			continue
+		}
+		confirmed[v.Sig] = true
+		// every reported violation must reproduce in a fresh process, five times
+		for i := 0; i < 5; i++ {
+			sigs, herr := runOne(c.Tier, v.Group, v.Input, v.Seq, tmp)
+			if herr != "" {
+				fatalf("confirmation child: %s", herr)
+			}
+			if _, ok := sigs[v.Sig]; !ok {
+				fatalf("violation %q (entry %s, input %s) did not reproduce in a fresh process (run %d): nondeterminism in the harness", v.Sig, v.Group, shortHex(v.Input), i)
+			}
+		}
 		c.Violation(v.Sig, fmt.Sprintf("%s [entry %s, case %d, input %s]", v.What, v.Group, v.Seq, shortHex(v.Input)),
 			map[string]any{"group": v.Group, "input": v.Input, "wire": v.Wire, "seq": v.Seq, "extra": v.Extra})
 	}
@@ -770,6 +806,7 @@ func main() {
 		"service.handleConn / the UDP relay loops themselves are not run; their sequence (handshake, route, abort or proceed, dial outbound, relay) is reproduced by the harness on the real components",
 	}
 	addSamples(c, groups)
+	os.RemoveAll(tmp)
 	c.Finish()
 }
 
